@@ -577,7 +577,7 @@ func vtC11GenPods(rnd *rand.Rand, unit int64, allNil bool, boundary bool) []int6
 				lab = []int64{minI32 - 1, minI32, minI32 + 1, -1, 0, 1, maxI32 - 1, maxI32, maxI32 + 1, 1 << 40, -(1 << 40)}[rnd.Intn(11)]
 			}
 		}
-		used := int64(1+rnd.Intn(50))*unit + id
+		used := int64(1+rnd.Intn(50))*unit + 2*id // spacing 2: a sample may lose a milli in the float64 cores round trip
 		out = append(out, id, vtB(rnd.Intn(2) == 0), vtB(rnd.Intn(100) < 88), pol, vtB(allNil), prio,
 			vtB(rnd.Intn(100) < 82), evprio, vtB(hasLab), lab, vtB(rnd.Intn(100) < 88), used,
 			int64(rnd.Intn(40))*unit+id*8, int64(rnd.Intn(40))*unit+id*8+1, int64(rnd.Intn(40))*unit+id*8+2)
@@ -676,7 +676,7 @@ func vtC11Detie(rnd *rand.Rand, pods []int64, extras []int64, unit int64) {
 			}
 			req, used, k := vtC11HeldBatch(f, extras), int64(0), key{}
 			if f[10] != 0 {
-				used = f[11]
+				used = int64(float64(f[11]) / 1000 * 1000) // MilliCPUUsed = int64(cores*1000)
 			}
 			if f[4] == 0 {
 				k.prio = f[5]
@@ -693,7 +693,7 @@ func vtC11Detie(rnd *rand.Rand, pods []int64, extras []int64, unit int64) {
 			if f[13] <= 0 {
 				f[13] = int64(1+rnd.Intn(40))*unit + f[0]*8 + 1
 			}
-			f[11] = vtC11Exact(f[11] + unit*int64(1+rnd.Intn(7)))
+			f[11] = f[11] + unit*int64(1+rnd.Intn(7))
 		}
 		if !changed {
 			return
@@ -805,7 +805,12 @@ func vtC11CPUGen(rnd *rand.Rand, idx int) (string, []int64) {
 	if style == "pressure" && rnd.Intn(2) == 0 {
 		cap = int64(2+rnd.Intn(14)) * 1000
 	}
-	nodeUsed := vtC11Exact(cap / 100 * pct)
+	nodeUsed := cap / 100 * pct
+	if rnd.Intn(2) == 0 {
+		nodeUsed = vtC11Exact(nodeUsed)
+	} else {
+		nodeUsed += int64(rnd.Intn(1000))
+	}
 	thr := int64(60 + rnd.Intn(36))
 	lower := thr - int64(1+rnd.Intn(30))
 	if rnd.Intn(20) == 0 {
@@ -817,8 +822,11 @@ func vtC11CPUGen(rnd *rand.Rand, idx int) (string, []int64) {
 	evthr := []int64{5999, 7999, 9999, 3999, 6999}[rnd.Intn(5)]
 	athr := int64(rnd.Intn(100))
 	alower := []int64{0, 25, 50, 75}[rnd.Intn(4)]
+	if rnd.Intn(2) == 0 {
+		alower = int64(rnd.Intn(100)) // float64(lower)/100 is not a binary fraction
+	}
 	if rnd.Intn(3) != 0 && alower >= athr {
-		alower = 0
+		alower = int64(rnd.Intn(int(athr + 1)))
 	}
 	aprio := []int64{5999, 7999, 7999, 3999, 8500}[rnd.Intn(5)]
 	if style == "boundary" {
@@ -826,13 +834,15 @@ func vtC11CPUGen(rnd *rand.Rand, idx int) (string, []int64) {
 		aprio = []int64{7999, 7999, -1, -(int64(1) << 31)}[rnd.Intn(4)]
 	}
 	alloc := func() int64 {
-		switch rnd.Intn(8) {
+		switch rnd.Intn(10) {
 		case 0:
 			return -1
 		case 1:
 			return 0
-		default:
+		case 2, 3, 4:
 			return int64(1) << uint(8+rnd.Intn(8))
+		default:
+			return int64(100 + rnd.Intn(60000))
 		}
 	}
 	fp := 80
@@ -848,8 +858,10 @@ func vtC11CPUGen(rnd *rand.Rand, idx int) (string, []int64) {
 		in[1] = 0
 	}
 	pods := vtC11GenPods(rnd, unit, rnd.Intn(20) == 0, style == "boundary")
-	for p := 0; p < int(pods[0]); p++ {
-		pods[1+15*p+11] = vtC11Exact(pods[1+15*p+11])
+	if rnd.Intn(2) == 0 { // samples that survive the float64 cores round trip; otherwise they may lose a milli
+		for p := 0; p < int(pods[0]); p++ {
+			pods[1+15*p+11] = vtC11Exact(pods[1+15*p+11])
+		}
 	}
 	// further containers (sidecars, init containers), BECPUEvict
 	percent := 10
